@@ -3,6 +3,7 @@
 package cache
 
 import (
+	"bytes"
 	"slices"
 	"strconv"
 	"strings"
@@ -165,7 +166,14 @@ func New(config ...Config) fiber.Handler {
 					c.Response().Header.SetBytesV(fiber.HeaderContentEncoding, e.cencoding)
 				}
 				for k, v := range e.headers {
-					c.Response().Header.SetBytesV(k, v)
+					// the values of a repeated header are stored in one record, separated by LF
+					for i, value := range bytes.Split(v, []byte{'\n'}) {
+						if i == 0 {
+							c.Response().Header.SetBytesV(k, value)
+						} else {
+							c.Response().Header.AddBytesV(k, value)
+						}
+					}
 				}
 				// Set Cache-Control header if enabled
 				if cfg.CacheControl {
@@ -238,7 +246,12 @@ func New(config ...Config) fiber.Handler {
 					// create real copy
 					keyS := string(key)
 					if _, ok := ignoreHeaders[keyS]; !ok {
-						e.headers[keyS] = utils.CopyBytes(value)
+						if stored, repeated := e.headers[keyS]; repeated {
+							// a header that occurs more than once keeps all its values (LF cannot be part of one)
+							e.headers[keyS] = append(append(stored, '\n'), value...)
+						} else {
+							e.headers[keyS] = utils.CopyBytes(value)
+						}
 					}
 				},
 			)
